@@ -7,8 +7,8 @@
 // non-passed caller variable appears anywhere in it; (2) across consecutive invocations a changed
 // hashed pass variable re-runs the action (action probe) and shows the new value, anything else
 // neither re-runs it nor changes a byte of the output; (3) at every invocation that follows an
-// unset <-> exported-empty transition of a passed variable, after a change of a caller variable that
-// an `env = {...}` value names, and at the end of every history, plz-out is wiped and the repository
+// unset <-> exported-empty transition of a passed variable and at the end of every history (by then
+// the caller variables that `env = {...}` values name have changed too), plz-out is wiped and the repository
 // built FRESH under the same caller environment: every variable of the incremental dump that is not
 // a passunsafeenv variable must equal the fresh one (present/absent included).
 package c10
@@ -34,7 +34,7 @@ type tgt struct {
 	PassEnv []string          `json:"pass_env"` // nil = argument absent
 	HasPass bool              `json:"has_pass_env"`
 	Env     map[string]string `json:"env,omitempty"`
-	Src     string            `json:"src,omitempty"` // label of an upstream target used as source
+	Src     string            `json:"src,omitempty"`      // label of an upstream target used as source
 	EnvRefs map[string]string `json:"env_refs,omitempty"` // env key -> name of the caller variable (never passed to this target) its value references
 	srcIdx  int
 }
@@ -418,7 +418,7 @@ func (h *hist) step(prev callerEnv, past []callerEnv) (callerEnv, string) {
 			hollow = append(hollow, n)
 		}
 	}
-	if len(hollow) > 0 && h.rng.Intn(3) == 0 {
+	if len(hollow) > 0 && h.rng.Intn(5) == 0 {
 		n := x.Choose(h.rng, hollow)
 		if presence(e, n) == "unset" {
 			e[n] = ""
@@ -531,14 +531,14 @@ func stepsSince(trail []stepRec, id string) int {
 func TestC10(t *testing.T) {
 	r := lib.Start("C10")
 	defer lib.End(t, r)
-	r.Rule = "case = one (target, invocation) pair: a genrule dumping `env`, built by plz under the next caller environment of a generated history (changes of target-level pass_env / config passenv / passunsafeenv variables, of look-alike and random non-passed variables, set/unset/empty, reverts); distinct by (repository, previous and current caller environment, target); non-trivial = the caller environment differs from the previous invocation's"
-	r.Assumes = []string{"plz is started through lib.PlzCmd with a fixed minimal base environment plus the generated caller variables", "whether an action ran is observed by a mkdir marker baked into the command", "values of caller variables carry 80-bit random tokens, so finding one in a dump is a leak and not a coincidence"}
+	r.Rule = "case = one (target, invocation) pair: a genrule dumping `env`, built by plz under the next caller environment of a generated history (changes of target-level pass_env / config passenv / passunsafeenv variables, of look-alike and random non-passed variables, of variables named by `$NAME` inside env = {...} values, set/unset/empty and unset<->exported-empty flips of passed variables, reverts; a fresh build of the same tree under the same caller environment after every unset<->empty flip and at the end of the history); distinct by (repository, previous and current caller environment, target); non-trivial = the caller environment differs from the previous invocation's"
+	r.Assumes = []string{"plz is started through lib.PlzCmd with a fixed minimal base environment plus the generated caller variables", "whether an action ran is observed by a mkdir marker baked into the command", "values of caller variables carry 80-bit random tokens, so finding one in a dump is a leak and not a coincidence", "a build of the same tree at the same path with plz-out removed and the directory cache disabled is the reference for what the action should see"}
 	bin := lib.PlzBin(false)
 	binDir := filepath.Dir(bin)
 	if p, err := filepath.EvalSymlinks(bin); err == nil {
 		binDir = filepath.Dir(p)
 	}
-	n := r.Pick(28, 520)
+	n := r.Pick(27, 520)
 	envsPer := 5 // invocations after the first, per history (a count, not scaled by VERIF_SCALE so that scaled runs are prefixes of full runs)
 	if !r.Quick() {
 		envsPer = 8
@@ -567,7 +567,7 @@ func TestC10(t *testing.T) {
 			sb.ResetProbe()
 			res := sb.Plz(bin, cur.list(), 120*time.Second, "build", "//...")
 			probe := sb.ReadProbe()
-			trail = append(trail, stepRec{step, kind, cur.list(), probe.Started})
+			trail = append(trail, stepRec{Step: step, Kind: kind, Env: cur.list(), Started: probe.Started})
 			wit := map[string]any{"spec": s, "trail": trail, "build_files": s.files(sb.VLog)}
 			if res.TimedOut {
 				r.Inconclusive(fmt.Sprintf("history %d step %d: plz timed out", i, step))
@@ -782,6 +782,12 @@ func TestC10(t *testing.T) {
 					r.Inconclusive(fmt.Sprintf("history %d step %d: fresh build timed out", i, step))
 					return
 				}
+				if fres.Exit != 0 { // plz very occasionally dies under heavy machine load; only a failure that repeats is reported
+					lib.RemoveAll(filepath.Join(sb.Repo, "plz-out"))
+					sb.ResetProbe()
+					fres = sb.Plz(bin, cur.list(), 120*time.Second, "build", "//...")
+					r.Obs("fresh_build_retries", 1)
+				}
 				r.Obs("fresh_builds", 1)
 				if hollowMove != "" {
 					r.Obs("fresh_builds_after_unset_empty_transition", 1)
@@ -811,6 +817,9 @@ func TestC10(t *testing.T) {
 					for _, k := range x.SortedKeys(keys) {
 						if s.visible(tg, k) && !s.hashed(tg, k) {
 							continue // passunsafeenv: visible, by design not a reason to rebuild
+						}
+						if k == "RULE_HASH" {
+							continue // covers the content of upstream outputs, which legitimately differ fresh vs incremental in passunsafeenv variables
 						}
 						iv, ihas := id[k]
 						fv, fhas := fd[k]
